@@ -484,6 +484,56 @@ def check_outguard(ck, prog, rule="C06-OUTGUARD"):
     return n
 
 
+def refresh_counters(prog, files=("lzma_encoder_optimum_normal.c", "lzma_encoder_optimum_fast.c", "lzma_encoder.c")):
+    """Members used as `coder->M >= K` guarding a call of a function that recomputes a table and stores M = 0:
+    the table is valid only while M has been zeroed by that function since the last reset."""
+    out = {}
+    for base in files:
+        for f in prog.fns_in(base):
+            for bid, blk in f.blocks.items():
+                t = blk.term
+                if not t or "cond" not in t or len(blk.succs) != 2 or blk.succs[0] is None:
+                    continue
+                c = ex.strip(t["cond"])
+                if c is None or c.get("k") != "bin" or c["op"] not in (">=", ">"):
+                    continue
+                l = ex.strip(c["l"])
+                if l is None or l.get("k") != "mem":
+                    continue
+                tb = f.blocks.get(blk.succs[0])
+                if tb is None:
+                    continue
+                for e in tb.elems:
+                    for cc in ex.calls(e, into_refs=False):
+                        for g in prog.functions.get(cc.get("fn") or "", []):
+                            if not g.blocks:
+                                continue
+                            for b2, i2, e2 in g.iter_elems():
+                                for (ll, rr, op, node) in ex.writes(e2):
+                                    ls = ex.strip(ll)
+                                    if ls is not None and ls.get("k") == "mem" and ls["f"] == l["f"] and op == "=" \
+                                            and ex.is_const(rr, 0):
+                                        out[l["f"]] = (f, t, g.name)
+    return out
+
+
+def check_encreset(ck, prog, rule):
+    """The price tables of the LZMA encoder are caches of the probabilities; they are recomputed when the matching
+    price count reaches a threshold.  A state reset re-initialises the probabilities, so it must also make the
+    price counts reach the threshold: otherwise the first symbols after the reset are priced with tables computed
+    from the previous chunk/session and the output depends on history."""
+    from . import reinit
+    ck.rule(rule, "lzma_lzma_encoder_reset() stores to every counter that triggers the recomputation of a price table")
+    rc = refresh_counters(prog)
+    if len(rc) < 2:
+        raise AnalysisBroken("refresh counters of the LZMA encoder not found (%s)" % sorted(rc))
+    reinit.check_reset_cover(ck, prog, rule, [
+        ("lzma_lzma_encoder_reset", "lzma_encoder.c", "lzma_lzma1_encoder_s",
+         ("lzma_lzma_encoder_create", "lzma_encoder_init", "lzma_lzma_encoder_init"), {}),
+    ], only=set(rc))
+    ck.floor(rule, 2)
+
+
 def run(ck):
     ck.explanation = (
         "Static necessary conditions of slicing independence: (RESUME) liveness/reaching-definition "
@@ -535,6 +585,7 @@ def run(ck):
          [("lzma_lz_options", "before_size"), ("lzma_lz_options", "dict_size")], [],
          "the whole dictionary stays addressable behind read_pos after a window move"),
     ], rule="C06-PROV", floor=2)
+    check_encreset(ck, prog, "C06-ENCRESET")
     ck.rule("C06-APPLY", "an amount measured in this call (bytes used, padding found) is applied to the persistent member "
                          "it updates on every way out that the caller continues from")
     reinit.check_local_applied(ck, prog, "C06-APPLY")
